@@ -27,6 +27,31 @@ structure Val where
   v : Nat
   deriving DecidableEq, Repr
 
+/-- What python's `==`, `in` and `hash` see of a value: INTEGER (tag 0), REAL (tag 2, whole numbers in the harness) and
+BOOLEAN (tag 3, `False`/`True` = 0/1) compare *by number* across types (`INTEGER(1) == REAL(1.0) == True`, equal hashes);
+every other value only equals itself (strings of one class, LOGICAL and aggregate objects by identity). -/
+inductive Key
+  | num (n : Nat)
+  | other (ty : Ty) (v : Nat)
+  deriving DecidableEq, Repr
+
+def Val.key (x : Val) : Key :=
+  match x.ty with
+  | .simple 0 => .num x.v
+  | .simple 2 => .num x.v
+  | .simple 3 => .num (x.v % 2)
+  | t => .other t x.v
+
+/-- python's `x == y` on the value universe; an equivalence relation (`veq_refl/symm/trans` in PyAggLemmas.lean) -/
+def veq (x y : Val) : Bool := x.key == y.key
+
+/-- `isinstance(value, base)` for a simple base type: the value's own class, and NUMBER (tag 5, a base type only: it has no
+values of its own) is a base class of INTEGER and REAL (not of `bool`) -/
+def conforms (t base : Ty) : Bool :=
+  match base with
+  | .simple 5 => t == .simple 0 || t == .simple 2
+  | b => t == b
+
 /-- the element was built over the very base-type object of the declaration (see `Val`) -/
 def Val.sharesDeclaredBase (x : Val) : Bool := x.v % 2 == 0
 
